@@ -21,6 +21,16 @@ theorem valToStr_isStr {v : Val} : (∃ x, valToStr v = some x) ↔ isStr v = tr
 theorem valToStr_none {v : Val} (h : isStr v = false) : valToStr v = none := by
   cases v <;> simp [valToStr, isStr] at h ⊢
 
+/-- `stack$` prints every value of a stack that holds no function values -/
+theorem printAll_eq (vs : List Val) (h : ∀ v ∈ vs, isExec v = false) :
+    runBuiltin.printAll vs = some (vs.map shown) := by
+  induction vs with
+  | nil => rfl
+  | cons v vs ih =>
+    have := ih (fun w hw => h w (List.mem_cons_of_mem _ hw))
+    have hv := h v List.mem_cons_self
+    cases v <;> simp_all [runBuiltin.printAll, shown, isExec, intToStr]
+
 /-! ### fuel -/
 
 /-- more fuel never changes a finished run: all six mutually recursive functions at once -/
@@ -160,5 +170,599 @@ theorem fuel_mono_all (n : Nat) : ∀ m, n ≤ m →
             rw [h2] at h; simp only at h ⊢
             exact ihW _ _ _ h
       | _ => rfl
+
+/-! ### `add.period$` -/
+
+theorem dropWhile_replicate_append {α} (p : α → Bool) (k : Nat) (a : α) (c : α) (l : List α) (ha : p a = true) (hc : p c = false) :
+    (List.replicate k a ++ c :: l).dropWhile p = c :: l := by
+  induction k with
+  | zero => simp [hc]
+  | succ k ih => simp [List.replicate_succ, ha, ih]
+
+theorem dropWhile_replicate_all {α} (p : α → Bool) (k : Nat) (a : α) (ha : p a = true) :
+    (List.replicate k a).dropWhile p = [] := by
+  induction k with
+  | zero => rfl
+  | succ k ih => simp [List.replicate_succ, ha, ih]
+
+theorem addPeriod_nil : addPeriod [] = [] := rfl
+
+/-- a string that ends in `c` followed by closing braces only -/
+theorem addPeriod_core (core : Str) (c : Char) (k : Nat) (hc : c ≠ '}') :
+    addPeriod (core ++ c :: List.replicate k '}') =
+      if EndsSentence c then core ++ c :: List.replicate k '}' else core ++ c :: List.replicate k '}' ++ ['.'] := by
+  have hne : core ++ c :: List.replicate k '}' ≠ [] := by simp
+  have hrev : (core ++ c :: List.replicate k '}').reverse = List.replicate k '}' ++ c :: core.reverse := by
+    simp [List.reverse_append, List.reverse_cons]
+  unfold addPeriod
+  rw [if_neg hne]
+  simp only [hrev]
+  rw [dropWhile_replicate_append _ k '}' c core.reverse (by simp) (by simp [hc])]
+  simp only [List.reverse_cons, List.reverse_reverse, List.getLast?_append, List.getLast?_singleton, EndsSentence]
+  simp
+
+theorem addPeriod_braces (k : Nat) :
+    addPeriod (List.replicate (k + 1) '}') = List.replicate (k + 1) '}' ++ ['.'] := by
+  have hne : List.replicate (k + 1) '}' ≠ [] := by simp [List.replicate_succ]
+  unfold addPeriod
+  rw [if_neg hne]
+  have : (List.replicate (k + 1) '}').reverse.dropWhile (· = '}') = [] := by
+    rw [List.reverse_replicate]
+    exact dropWhile_replicate_all _ _ _ (by simp)
+  simp only [this]
+  rfl
+
+/-! ### `format.name$`: the name number -/
+
+theorem pyIndex_pos {α} (l : List α) (n : Int) (h1 : 1 ≤ n) (h2 : n ≤ l.length) :
+    pyIndex l (n - 1) = l[(n - 1).toNat]? := by
+  unfold pyIndex
+  simp only
+  have h3 : ¬ (n - 1 < 0) := by omega
+  rw [if_neg h3, if_neg (by omega)]
+
+theorem finished_ok {s : St} : Finished (.ok s) := fun h => nomatch h
+
+theorem evalVal_mono {n m v s s'} (h : execVal n v s = .ok s') (hm : n ≤ m) : execVal m v s = .ok s' := by
+  rw [(fuel_mono_all n m hm).1 v s (by rw [h]; exact finished_ok), h]
+theorem evalObj_mono {n m o s s'} (h : execObj n o s = .ok s') (hm : n ≤ m) : execObj m o s = .ok s' := by
+  rw [(fuel_mono_all n m hm).2.1 o s (by rw [h]; exact finished_ok), h]
+theorem evalTok_mono {n m t s s'} (h : execTok n t s = .ok s') (hm : n ≤ m) : execTok m t s = .ok s' := by
+  rw [(fuel_mono_all n m hm).2.2.1 t s (by rw [h]; exact finished_ok), h]
+theorem evalBody_mono {n m b s s'} (h : execBody n b s = .ok s') (hm : n ≤ m) : execBody m b s = .ok s' := by
+  rw [(fuel_mono_all n m hm).2.2.2.1 b s (by rw [h]; exact finished_ok), h]
+theorem evalWhile_mono {n m p f s s'} (h : whileLoop n p f s = .ok s') (hm : n ≤ m) : whileLoop m p f s = .ok s' := by
+  rw [(fuel_mono_all n m hm).2.2.2.2.1 p f s (by rw [h]; exact finished_ok), h]
+theorem evalBuiltin_mono {n m b s s'} (h : runBuiltin n b s = .ok s') (hm : n ≤ m) : runBuiltin m b s = .ok s' := by
+  rw [(fuel_mono_all n m hm).2.2.2.2.2 b s (by rw [h]; exact finished_ok), h]
+
+theorem evalBuiltin_while (p f : Val) (s s' : St) (r : List Val) :
+    EvalBuiltin .while_ { s with stack := f :: p :: r } s' ↔ EvalWhile p f { s with stack := r } s' := by
+  constructor
+  · rintro ⟨n, h⟩
+    cases n with
+    | zero => cases h
+    | succ n => exact ⟨n, h⟩
+  · rintro ⟨n, h⟩
+    exact ⟨n + 1, h⟩
+
+theorem evalWhile_unfold (p f : Val) (s s' : St) :
+    EvalWhile p f s s' ↔
+      ∃ s1 k s2, EvalVal p s s1 ∧ popInt s1 = .ok (k, s2) ∧
+        ((k ≤ 0 ∧ s' = s2) ∨ (0 < k ∧ ∃ s3, EvalVal f s2 s3 ∧ EvalWhile p f s3 s')) := by
+  constructor
+  · rintro ⟨n, h⟩
+    cases n with
+    | zero => cases h
+    | succ n =>
+      simp only [whileLoop] at h
+      cases hp : execVal n p s with
+      | error e => rw [hp] at h; cases h
+      | ok s1 =>
+        rw [hp] at h; simp only at h
+        cases hq : popInt s1 with
+        | error e => rw [hq] at h; cases h
+        | ok q =>
+          obtain ⟨k, s2⟩ := q
+          rw [hq] at h; simp only at h
+          refine ⟨s1, k, s2, ⟨n, hp⟩, hq, ?_⟩
+          by_cases hk : k ≤ 0
+          · rw [if_pos hk] at h; cases h; exact .inl ⟨hk, rfl⟩
+          · rw [if_neg hk] at h
+            cases hf : execVal n f s2 with
+            | error e => rw [hf] at h; cases h
+            | ok s3 =>
+              rw [hf] at h
+              exact .inr ⟨by omega, s3, ⟨n, hf⟩, ⟨n, h⟩⟩
+  · rintro ⟨s1, k, s2, ⟨n1, hp⟩, hq, hcase⟩
+    rcases hcase with ⟨hk, rfl⟩ | ⟨hk, s3, ⟨n2, hf⟩, ⟨n3, hw⟩⟩
+    · refine ⟨n1 + 1, ?_⟩
+      simp only [whileLoop, hp, hq, if_pos hk]
+    · refine ⟨max n1 (max n2 n3) + 1, ?_⟩
+      have h1 := evalVal_mono hp (Nat.le_max_left n1 (max n2 n3))
+      have h2 := evalVal_mono hf (Nat.le_trans (Nat.le_max_left n2 n3) (Nat.le_max_right n1 (max n2 n3)))
+      have h3 := evalWhile_mono hw (Nat.le_trans (Nat.le_max_right n2 n3) (Nat.le_max_right n1 (max n2 n3)))
+      have hk' : ¬ k ≤ 0 := by omega
+      simp only [whileLoop, h1, hq, if_neg hk', h2, h3]
+
+/-! ### `strLt`: code-point lexicographic order -/
+
+theorem char_eq_of_toNat_eq {a b : Char} (h : a.toNat = b.toNat) : a = b := by
+  apply Char.ext
+  apply UInt32.toNat_inj.1
+  exact h
+
+theorem strLt_iff_lexLt (a b : Str) : strLt a b = true ↔ LexLt a b := by
+  constructor
+  · intro h
+    induction a generalizing b with
+    | nil =>
+      cases b with
+      | nil => simp [strLt] at h
+      | cons c t => exact .nil
+    | cons x r ih =>
+      cases b with
+      | nil => simp [strLt] at h
+      | cons y t =>
+        simp only [strLt] at h
+        by_cases h1 : x.toNat < y.toNat
+        · exact .lt h1
+        · rw [if_neg h1] at h
+          by_cases h2 : x.toNat > y.toNat
+          · rw [if_pos h2] at h; cases h
+          · rw [if_neg h2] at h
+            have : x = y := char_eq_of_toNat_eq (by omega)
+            subst this
+            exact .eq (ih t h)
+  · intro h
+    induction h with
+    | nil => rfl
+    | lt h1 => simp only [strLt, if_pos h1]
+    | eq _ ih => simp only [strLt, Nat.lt_irrefl, if_false, gt_iff_lt, ih]
+
+theorem strLt_irrefl (a : Str) : strLt a a = false := by
+  induction a with
+  | nil => rfl
+  | cons x r ih => simp only [strLt, Nat.lt_irrefl, if_false, gt_iff_lt, ih]
+
+theorem strLt_trans {a b c : Str} (h1 : strLt a b = true) (h2 : strLt b c = true) : strLt a c = true := by
+  induction a generalizing b c with
+  | nil =>
+    cases c with
+    | nil => cases b <;> simp [strLt] at h1 h2
+    | cons z u => rfl
+  | cons x r ih =>
+    cases b with
+    | nil => simp [strLt] at h1
+    | cons y t =>
+      cases c with
+      | nil => simp [strLt] at h2
+      | cons z u =>
+        simp only [strLt] at h1 h2 ⊢
+        by_cases hxy : x.toNat < y.toNat
+        · by_cases hyz : y.toNat < z.toNat
+          · rw [if_pos (by omega)]
+          · rw [if_neg hyz] at h2
+            by_cases hyz' : y.toNat > z.toNat
+            · rw [if_pos hyz'] at h2; cases h2
+            · rw [if_pos (by omega)]
+        · rw [if_neg hxy] at h1
+          by_cases hxy' : x.toNat > y.toNat
+          · rw [if_pos hxy'] at h1; cases h1
+          · rw [if_neg hxy'] at h1
+            by_cases hyz : y.toNat < z.toNat
+            · rw [if_pos (by omega)]
+            · rw [if_neg hyz] at h2
+              by_cases hyz' : y.toNat > z.toNat
+              · rw [if_pos hyz'] at h2; cases h2
+              · rw [if_neg hyz'] at h2
+                rw [if_neg (by omega), if_neg (by omega)]
+                exact ih h1 h2
+
+theorem strLt_asymm {a b : Str} (h : strLt a b = true) : strLt b a = false := by
+  cases hb : strLt b a with
+  | false => rfl
+  | true => have := strLt_trans h hb; rw [strLt_irrefl] at this; cases this
+
+/-- trichotomy: the order is total -/
+theorem strLt_total (a b : Str) : strLt a b = true ∨ a = b ∨ strLt b a = true := by
+  induction a generalizing b with
+  | nil =>
+    cases b with
+    | nil => exact .inr (.inl rfl)
+    | cons y t => exact .inl rfl
+  | cons x r ih =>
+    cases b with
+    | nil => exact .inr (.inr rfl)
+    | cons y t =>
+      simp only [strLt]
+      by_cases h1 : x.toNat < y.toNat
+      · exact .inl (by rw [if_pos h1])
+      · by_cases h2 : y.toNat < x.toNat
+        · exact .inr (.inr (by rw [if_pos h2]))
+        · have : x = y := char_eq_of_toNat_eq (by omega)
+          subst this
+          rcases ih t with h | h | h
+          · exact .inl (by rw [if_neg h1, if_neg h1]; exact h)
+          · exact .inr (.inl (by rw [h]))
+          · exact .inr (.inr (by rw [if_neg h1, if_neg h1]; exact h))
+
+/-- `¬ b < a` and `¬ a < b` only for equal strings -/
+theorem strLt_antisymm {a b : Str} (h1 : strLt a b = false) (h2 : strLt b a = false) : a = b := by
+  rcases strLt_total a b with h | h | h
+  · rw [h] at h1; cases h1
+  · exact h
+  · rw [h] at h2; cases h2
+
+/-- `a ≤ b < c → a < c` -/
+theorem strLt_of_le_of_lt {a b c : Str} (h1 : strLt b a = false) (h2 : strLt b c = true) : strLt a c = true := by
+  rcases strLt_total a b with h | h | h
+  · exact strLt_trans h h2
+  · rw [h]; exact h2
+  · rw [h] at h1; cases h1
+
+/-! ### the stable insertion sort of `SORT` -/
+
+/-- sortedness on the Boolean order -/
+def SortedB (l : List (Str × Str)) : Prop := l.Pairwise fun a b => strLt b.1 a.1 = false
+
+theorem insertSorted_perm (x : Str × Str) (l : List (Str × Str)) : (insertSorted x l).Perm (x :: l) := by
+  induction l with
+  | nil => exact List.Perm.refl _
+  | cons y r ih =>
+    simp only [insertSorted]
+    split
+    · exact List.Perm.refl _
+    · exact (List.Perm.cons y ih).trans (List.Perm.swap x y r)
+
+theorem insertSorted_sorted (x : Str × Str) (l : List (Str × Str)) (h : SortedB l) : SortedB (insertSorted x l) := by
+  induction l with
+  | nil => simp [insertSorted, SortedB]
+  | cons y r ih =>
+    simp only [insertSorted]
+    have hy := List.pairwise_cons.1 h
+    split
+    · rename_i hlt
+      refine List.pairwise_cons.2 ⟨?_, h⟩
+      intro z hz
+      rcases List.mem_cons.1 hz with rfl | hz
+      · exact strLt_asymm hlt
+      · have := hy.1 z hz
+        -- y ≤ z, x < y ⇒ ¬ z < x
+        cases hzx : strLt z.1 x.1 with
+        | false => rfl
+        | true =>
+          have := strLt_trans hzx hlt
+          rw [hy.1 z hz] at this; cases this
+    · rename_i hlt
+      refine List.pairwise_cons.2 ⟨?_, ih hy.2⟩
+      intro z hz
+      have hz' := (insertSorted_perm x r).subset hz
+      rcases List.mem_cons.1 hz' with rfl | hz'
+      · simpa using hlt
+      · exact hy.1 z hz'
+
+/-- stability of one insertion into a sorted list: the new element goes behind all elements
+with the same key -/
+theorem insertSorted_filter (x : Str × Str) (l : List (Str × Str)) (h : SortedB l) (k : Str) :
+    (insertSorted x l).filter (fun p => p.1 = k) = l.filter (fun p => p.1 = k) ++ (if x.1 = k then [x] else []) := by
+  induction l with
+  | nil => by_cases hk : x.1 = k <;> simp [insertSorted, hk]
+  | cons y r ih =>
+    have hy := List.pairwise_cons.1 h
+    simp only [insertSorted]
+    split
+    · rename_i hlt
+      by_cases hk : x.1 = k
+      · -- nothing in y :: r has key k
+        have hnone : (y :: r).filter (fun p => p.1 = k) = [] := by
+          rw [List.filter_eq_nil_iff]
+          intro z hz
+          have hzlt : strLt x.1 z.1 = true := by
+            rcases List.mem_cons.1 hz with rfl | hz
+            · exact hlt
+            · -- x < y ≤ z
+              rcases strLt_total x.1 z.1 with h' | h' | h'
+              · exact h'
+              · rw [h'] at hlt; rw [hy.1 z hz] at hlt; cases hlt
+              · have := strLt_trans h' hlt; rw [hy.1 z hz] at this; cases this
+          intro hzk
+          have : z.1 = x.1 := by simpa [hk] using hzk
+          rw [this, strLt_irrefl] at hzlt; cases hzlt
+        rw [List.filter_cons, if_pos (by simpa using hk), hnone, if_pos hk]; rfl
+      · rw [List.filter_cons, if_neg (by simpa using hk), if_neg hk, List.append_nil]
+    · rw [List.filter_cons, List.filter_cons, ih hy.2]
+      split <;> simp
+
+theorem foldl_insertSorted (l acc : List (Str × Str)) (h : SortedB acc) :
+    SortedB (l.foldl (fun acc x => insertSorted x acc) acc) ∧
+    (l.foldl (fun acc x => insertSorted x acc) acc).Perm (acc ++ l) ∧
+    ∀ k, (l.foldl (fun acc x => insertSorted x acc) acc).filter (fun p => p.1 = k) =
+      acc.filter (fun p => p.1 = k) ++ l.filter (fun p => p.1 = k) := by
+  induction l generalizing acc with
+  | nil => simp [h]
+  | cons x l ih =>
+    simp only [List.foldl_cons]
+    obtain ⟨h1, h2, h3⟩ := ih (insertSorted x acc) (insertSorted_sorted x acc h)
+    refine ⟨h1, ?_, ?_⟩
+    · refine h2.trans ?_
+      refine ((insertSorted_perm x acc).append_right l).trans ?_
+      simp only [List.cons_append]
+      exact List.perm_middle.symm
+    · intro k
+      rw [h3 k, insertSorted_filter x acc h k, List.filter_cons]
+      by_cases hk : x.1 = k <;> simp [hk]
+
+theorem sortByKey_spec (l : List (Str × Str)) :
+    SortedB (sortByKey l) ∧ (sortByKey l).Perm l ∧
+    ∀ k, (sortByKey l).filter (fun p => p.1 = k) = l.filter (fun p => p.1 = k) := by
+  have := foldl_insertSorted l [] List.Pairwise.nil
+  simpa [sortByKey] using this
+
+/-! ### the variable table -/
+
+theorem getItem_setItem_same (d : CIDict VarObj) (k : Str) (v : VarObj) : (d.setItem k v).getItem k = some v := by
+  simp only [CIDict.getItem, CIDict.setItem]; exact dget_dset_same _ _ _
+
+theorem getItem_setItem_eq (d : CIDict VarObj) (k k' : Str) (v : VarObj) (h : lower k' = lower k) :
+    (d.setItem k v).getItem k' = some v := by
+  simp only [CIDict.getItem, CIDict.setItem, h]; exact dget_dset_same _ _ _
+
+theorem getItem_setItem_ne (d : CIDict VarObj) (k k' : Str) (v : VarObj) (h : lower k' ≠ lower k) :
+    (d.setItem k v).getItem k' = d.getItem k' := by
+  simp only [CIDict.getItem, CIDict.setItem]; exact dget_dset_ne _ _ _ _ h
+
+theorem getItem_congr (d : CIDict VarObj) (k k' : Str) (h : lower k' = lower k) : d.getItem k' = d.getItem k := by
+  simp only [CIDict.getItem, h]
+
+theorem contains_eq_isSome (d : CIDict VarObj) (k : Str) : d.contains k = (d.getItem k).isSome := rfl
+
+theorem _root_.Pybtex.BstSem.VarsPersist.refl (v : CIDict VarObj) : VarsPersist v v := fun _ => .inl rfl
+
+theorem _root_.Pybtex.BstSem.VarsPersist.trans {a b c : CIDict VarObj} (h1 : VarsPersist a b) (h2 : VarsPersist b c) : VarsPersist a c := by
+  intro n
+  rcases h1 n with e1 | ⟨x, y, e1, e1'⟩ | ⟨x, y, e1, e1'⟩ <;> rcases h2 n with e2 | ⟨x', y', e2, e2'⟩ | ⟨x', y', e2, e2'⟩
+  · exact .inl (e2.trans e1)
+  · exact .inr (.inl ⟨x', y', e1 ▸ e2, e2'⟩)
+  · exact .inr (.inr ⟨x', y', e1 ▸ e2, e2'⟩)
+  · exact .inr (.inl ⟨x, y, e1, e2.trans e1'⟩)
+  · exact .inr (.inl ⟨x, y', e1, e2'⟩)
+  · rw [e1'] at e2; cases e2
+  · exact .inr (.inr ⟨x, y, e1, e2.trans e1'⟩)
+  · rw [e1'] at e2; cases e2
+  · exact .inr (.inr ⟨x, y', e1, e2'⟩)
+
+theorem varsPersist_set_gint {v : CIDict VarObj} {name : Str} {a : Int} (b : Int)
+    (h : v.getItem name = some (.gint a)) : VarsPersist v (v.setItem name (.gint b)) := by
+  intro n
+  by_cases hn : lower n = lower name
+  · exact .inr (.inl ⟨a, b, by rw [getItem_congr v name n hn, h], getItem_setItem_eq v name n _ hn⟩)
+  · exact .inl (getItem_setItem_ne v name n _ hn)
+
+theorem varsPersist_set_gstr {v : CIDict VarObj} {name : Str} {a : Val} (b : Val)
+    (h : v.getItem name = some (.gstr a)) : VarsPersist v (v.setItem name (.gstr b)) := by
+  intro n
+  by_cases hn : lower n = lower name
+  · exact .inr (.inr ⟨a, b, by rw [getItem_congr v name n hn, h], getItem_setItem_eq v name n _ hn⟩)
+  · exact .inl (getItem_setItem_ne v name n _ hn)
+
+/-! ### frames -/
+
+theorem _root_.Pybtex.BstSem.Frame.refl (s : St) : Frame s s :=
+  ⟨rfl, rfl, rfl, rfl, rfl, fun _ _ => rfl, VarsPersist.refl _, ⟨[], rfl⟩, List.prefix_refl _, List.prefix_refl _⟩
+
+theorem _root_.Pybtex.BstSem.Frame.trans {a b c : St} (h1 : Frame a b) (h2 : Frame b c) : Frame a c := by
+  refine ⟨h2.cur.trans h1.cur, h2.db.trans h1.db, h2.citations.trans h1.citations, h2.macros.trans h1.macros,
+    h2.preamble.trans h1.preamble, ?_, VarsPersist.trans h1.vars h2.vars, ?_, h1.reports.trans h2.reports, h1.printed.trans h2.printed⟩
+  · intro k hk
+    rw [h2.entry k (by rw [h1.cur]; exact hk), h1.entry k hk]
+  · obtain ⟨e1, he1⟩ := h1.out
+    obtain ⟨e2, he2⟩ := h2.out
+    exact ⟨e1 ++ e2, by rw [he2, he1, List.foldl_append]⟩
+
+theorem pop_eq {s s1 : St} {v : Val} (h : pop s = .ok (v, s1)) : s1 = { s with stack := s1.stack } ∧ s.stack = v :: s1.stack := by
+  unfold pop at h
+  split at h
+  · cases h
+  · rename_i hs; cases h; exact ⟨rfl, hs⟩
+
+theorem pop_frame {s s1 : St} {v : Val} (h : pop s = .ok (v, s1)) : Frame s s1 := by
+  rw [(pop_eq h).1]
+  exact ⟨rfl, rfl, rfl, rfl, rfl, fun _ _ => rfl, VarsPersist.refl _, ⟨[], rfl⟩, List.prefix_refl _, List.prefix_refl _⟩
+
+theorem popInt_frame {s s1 : St} {n : Int} (h : popInt s = .ok (n, s1)) : Frame s s1 := by
+  unfold popInt at h
+  split at h
+  · cases h
+  · rename_i hp; cases h; exact pop_frame hp
+  · cases h
+
+theorem popStr_frame {s s1 : St} {x : Str} (h : popStr s = .ok (x, s1)) : Frame s s1 := by
+  unfold popStr at h
+  split at h
+  · cases h
+  · rename_i hp; cases h; exact pop_frame hp
+  · rename_i hp; cases h; exact pop_frame hp
+  · cases h
+
+theorem _root_.Pybtex.BstSem.Frame.setEntryVar (s : St) (k n : Str) (v : Val) (hk : s.cur = some k) : Frame s (setEntryVar s k n v) := by
+  refine ⟨rfl, rfl, rfl, rfl, rfl, ?_, VarsPersist.refl _, ⟨[], rfl⟩, List.prefix_refl _, List.prefix_refl _⟩
+  intro k' hk'
+  show dget (dset s.entryVars k _) k' = _
+  exact dget_dset_ne _ _ _ _ (by rintro rfl; exact hk' hk)
+
+/-- close a goal `Frame s X` where `X` is an explicit update of `s` -/
+macro "frame_leaf" : tactic => `(tactic| first
+  | exact Frame.refl _
+  | exact ⟨rfl, rfl, rfl, rfl, rfl, fun _ _ => rfl, VarsPersist.refl _, ⟨[], rfl⟩, List.prefix_refl _, List.prefix_refl _⟩
+  | exact ⟨rfl, rfl, rfl, rfl, rfl, fun _ _ => rfl, VarsPersist.refl _, ⟨[], rfl⟩, List.prefix_append _ _, List.prefix_refl _⟩
+  | exact ⟨rfl, rfl, rfl, rfl, rfl, fun _ _ => rfl, VarsPersist.refl _, ⟨[], rfl⟩, List.prefix_refl _, List.prefix_append _ _⟩
+  | exact ⟨rfl, rfl, rfl, rfl, rfl, fun _ _ => rfl, VarsPersist.refl _, ⟨[.write _], rfl⟩, List.prefix_refl _, List.prefix_refl _⟩
+  | exact ⟨rfl, rfl, rfl, rfl, rfl, fun _ _ => rfl, VarsPersist.refl _, ⟨[.newline], rfl⟩, List.prefix_refl _, List.prefix_refl _⟩)
+
+/-- walk along the pops recorded in the context -/
+macro "frame_chain" : tactic => `(tactic| repeat (first
+  | refine Frame.trans (pop_frame (by assumption)) ?_
+  | refine Frame.trans (popInt_frame (by assumption)) ?_
+  | refine Frame.trans (popStr_frame (by assumption)) ?_))
+
+/-- every built-in other than the three that execute code (`call.type$`, `if$`, `while$`) -/
+theorem prim_frame (f : Nat) (b : Builtin) (s s' : St) (hb : b ≠ .callType ∧ b ≠ .if_ ∧ b ≠ .while_)
+    (h : runBuiltin (f+1) b s = .ok s') : Frame s s' := by
+  cases b
+  case callType => exact absurd rfl hb.1
+  case if_ => exact absurd rfl hb.2.1
+  case while_ => exact absurd rfl hb.2.2
+  case assign =>
+    simp only [runBuiltin] at h
+    split at h
+    · cases h
+    · rename_i var s1 h1
+      split at h
+      · cases h
+      · rename_i value s2 h2
+        have f12 : Frame s s2 := (pop_frame h1).trans (pop_frame h2)
+        refine f12.trans ?_
+        repeat' (split at h)
+        all_goals first
+          | (cases h; done)
+          | (cases h
+             exact ⟨rfl, rfl, rfl, rfl, rfl, fun _ _ => rfl, varsPersist_set_gint _ (by assumption), ⟨[], rfl⟩, List.prefix_refl _, List.prefix_refl _⟩)
+          | (cases h
+             exact ⟨rfl, rfl, rfl, rfl, rfl, fun _ _ => rfl, varsPersist_set_gstr _ (by assumption), ⟨[], rfl⟩, List.prefix_refl _, List.prefix_refl _⟩)
+          | (cases h; exact Frame.setEntryVar _ _ _ _ (by assumption))
+  all_goals
+    simp only [runBuiltin] at h
+    repeat' (split at h)
+    all_goals first
+      | (cases h; done)
+      | (cases h; frame_chain; frame_leaf)
+
+theorem frame_warn (s : St) (m : Str) : Frame s (warn s m) :=
+  ⟨rfl, rfl, rfl, rfl, rfl, fun _ _ => rfl, VarsPersist.refl _, ⟨[], rfl⟩, List.prefix_append _ _, List.prefix_refl _⟩
+
+/-- what any execution preserves (all six mutually recursive functions) -/
+theorem exec_frame (n : Nat) :
+    (∀ v s s', execVal n v s = .ok s' → Frame s s') ∧
+    (∀ o s s', execObj n o s = .ok s' → Frame s s') ∧
+    (∀ t s s', execTok n t s = .ok s' → Frame s s') ∧
+    (∀ b s s', execBody n b s = .ok s' → Frame s s') ∧
+    (∀ p f s s', whileLoop n p f s = .ok s' → Frame s s') ∧
+    (∀ b s s', runBuiltin n b s = .ok s' → Frame s s') := by
+  induction n with
+  | zero => refine ⟨?_, ?_, ?_, ?_, ?_, ?_⟩ <;> intros <;> rename_i h <;> cases h
+  | succ n ih =>
+    obtain ⟨ihV, ihO, ihT, ihB, ihW, ihR⟩ := ih
+    refine ⟨?_, ?_, ?_, ?_, ?_, ?_⟩
+    · intro v s s' h
+      cases v with
+      | fn body => exact ihB body s s' h
+      | ref name =>
+        simp only [execVal] at h
+        split at h
+        · exact ihO _ _ _ h
+        · cases h
+      | _ => cases h
+    · intro o s s' h
+      cases o with
+      | builtin b => exact ihR b s s' h
+      | func body => exact ihB body s s' h
+      | gint v => cases h; frame_leaf
+      | gstr v => cases h; frame_leaf
+      | eint nm =>
+        simp only [execObj] at h
+        split at h
+        · cases h
+        · cases h; frame_leaf
+      | estr nm =>
+        simp only [execObj] at h
+        split at h
+        · cases h
+        · cases h; frame_leaf
+      | field nm =>
+        simp only [execObj] at h
+        split at h
+        · cases h
+        · cases h; frame_leaf
+      | crossref =>
+        simp only [execObj] at h
+        split at h
+        · cases h
+        · cases h; frame_leaf
+    · intro t s s' h
+      cases t with
+      | name nm =>
+        simp only [execTok] at h
+        split at h
+        · cases h
+        · exact ihO _ _ _ h
+      | quoted nm =>
+        simp only [execTok] at h
+        split at h
+        · cases h; frame_leaf
+        · cases h
+      | _ => cases h; frame_leaf
+    · intro b s s' h
+      cases b with
+      | nil => cases h; exact Frame.refl _
+      | cons t ts =>
+        simp only [execBody] at h
+        split at h
+        · cases h
+        · rename_i s1 h1
+          exact (ihT _ _ _ h1).trans (ihB _ _ _ h)
+    · intro p f s s' h
+      simp only [whileLoop] at h
+      split at h
+      · cases h
+      · rename_i s1 h1
+        split at h
+        · cases h
+        · rename_i k s2 h2
+          have f2 : Frame s s2 := (ihV _ _ _ h1).trans (popInt_frame h2)
+          split at h
+          · cases h; exact f2
+          · split at h
+            · cases h
+            · rename_i s3 h3
+              exact f2.trans ((ihV _ _ _ h3).trans (ihW _ _ _ _ h))
+    · intro b s s' h
+      by_cases hb : b ≠ .callType ∧ b ≠ .if_ ∧ b ≠ .while_
+      · exact prim_frame n b s s' hb h
+      · cases b
+        case callType =>
+          simp only [runBuiltin] at h
+          split at h
+          · cases h
+          · split at h
+            · exact ihO _ _ _ h
+            · split at h
+              · exact (frame_warn _ _).trans (ihO _ _ _ h)
+              · cases h; exact frame_warn _ _
+        case if_ =>
+          simp only [runBuiltin] at h
+          split at h
+          · cases h
+          · rename_i f1 s1 h1
+            split at h
+            · cases h
+            · rename_i f2 s2 h2
+              split at h
+              · cases h
+              · rename_i p s3 h3
+                have f3 : Frame s s3 := (pop_frame h1).trans ((pop_frame h2).trans (popInt_frame h3))
+                split at h
+                · exact f3.trans (ihV _ _ _ h)
+                · exact f3.trans (ihV _ _ _ h)
+        case while_ =>
+          simp only [runBuiltin] at h
+          split at h
+          · cases h
+          · rename_i f1 s1 h1
+            split at h
+            · cases h
+            · rename_i f2 s2 h2
+              exact (pop_frame h1).trans ((pop_frame h2).trans (ihW _ _ _ _ h))
+        all_goals exact absurd (by decide) hb
 
 end Pybtex.Interp
